@@ -5,6 +5,7 @@ package c03
 
 import (
 	"bufio"
+	"errors"
 	"fmt"
 	"os"
 	"sort"
@@ -428,6 +429,10 @@ type rec struct {
 
 func loadConfig(s *engine.Super, cf config) (vals []rec, ends map[int]int64, err error) {
 	ends = map[int]int64{}
+	var seen, cap int64
+	if cf.n <= 10 {
+		cap = 3*polya.Graphs(cf.n).Int64() + 16
+	}
 	for _, fn := range s.StreamFiles(cf.stream()) {
 		f, e := os.Open(fn)
 		if e != nil {
@@ -448,12 +453,21 @@ func loadConfig(s *engine.Super, cf config) (vals []rec, ends map[int]int64, err
 				ends[a] = cnt
 				continue
 			}
+			seen++
+			if cap > 0 && int64(len(vals)) >= cap {
+				continue // far more values than classes: counted, not kept (the count alone is the violation)
+			}
 			vals = append(vals, rec{a, parts[1]})
 		}
 		f.Close()
 	}
+	if seen > int64(len(vals)) {
+		return vals, ends, fmt.Errorf("%w: %d values recorded over the %d shards", errTooMany, seen, cf.m)
+	}
 	return vals, ends, nil
 }
+
+var errTooMany = errors.New("more than three times as many values as there are isomorphism classes")
 
 // dedupe finds isomorphic pairs among vals (parallel invariant computation).
 func dedupe(vals []rec) (dups [][2]int, invs []uint64) {
@@ -523,6 +537,11 @@ func finish(s *engine.Super) {
 	allOK := map[int]bool{}
 	for _, cf := range cfs {
 		vals, ends, err := loadConfig(s, cf)
+		if errors.Is(err, errTooMany) {
+			s.AddEval(1)
+			s.Violation("search|over-production-in-total|"+cf.name(), map[string]interface{}{"config": cf.name(), "per_shard": ends}, err.Error(), fmt.Sprintf("at most %d (number of isomorphism classes on %d vertices) over all shards together", polya.Graphs(cf.n).Int64(), cf.n))
+			continue
+		}
 		if err != nil {
 			s.Inconclusive("cannot read event log of " + cf.name() + ": " + err.Error())
 			continue
